@@ -18,7 +18,7 @@ ID = 'C13'
 LEVEL = 'exploration'
 RUNS = {'quick': 16000, 'thorough': 300000}
 CHUNK = 40
-PROBES = ['class_filter_bsd', 'class_filter_non_bsd', 'bsd_subclass_filter', 'tid_filter', 'process_filter_name', 'process_filter_pid',
+PROBES = ['process_of_thread_announced_in_stream', 'dump_cut_at_both_ends', 'class_filter_bsd', 'class_filter_non_bsd', 'bsd_subclass_filter', 'tid_filter', 'process_filter_name', 'process_filter_pid',
           'helper_trace_class_hidden', 'helper_fs_class_hidden', 'helper_class_requested', 'repeat_request', 'callstacks_repeat',
           'kevents_after_traces', 'tuple_filter', 'images_announced_after_sample', 'combined_filters']
 RULE = ('one run = one long-lived PyKdebugParser and a history of 2..6 judged requests (traces, formatted_traces, callstacks, '
@@ -47,12 +47,17 @@ def _gen_filters(rng, dump):
         f['sub'] = [0x040c]
     if rng.chance(0.35):
         f['tid'] = rng.pick(tids)
-    if rng.chance(0.3):
+    if rng.chance(0.35):
         tm = dump['writer'].get('tmap', [])
-        if tm:
+        if dump.get('born') and rng.chance(0.5):
+            # the process of the thread announced in-stream (never combined with a tid filter: the tid filter removes the
+            # announcing thread's records before decoding, and whether "commute" survives that the statement leaves open)
+            f['proc'] = dump['born'][2] if rng.chance(0.5) else str(dump['born'][1])
+            f.pop('tid', None)
+        elif tm:
             t = rng.pick(tm)
             f['proc'] = t[2] if rng.chance(0.5) else str(t[1])
-            if 'tid' in f and rng.chance(0.5):
+            if 'tid' in f and (rng.chance(0.5) or dump.get('born')):
                 f.pop('tid')
     f['as_tuple'] = False    # traces() with tuple filters is exercised separately (probe tuple_filter)
     if rng.chance(0.1) and ('cls' in f or 'sub' in f):
@@ -63,6 +68,8 @@ def _gen_filters(rng, dump):
 def _fix_samples(dump):
     """Sampler thread-info records repeat the pid the thread map gives their thread (see ASSUMPTIONS)."""
     tm = {t[0]: t[1] for t in dump['writer'].get('tmap', [])}
+    if dump.get('born'):
+        tm[dump['born'][0]] = dump['born'][1]
 
     def walk(ops, tid):
         for op in ops:
@@ -102,6 +109,29 @@ def generate(rng, index, tier):
             th['ops'].append(worlds.op_sample(rng, thd=None, uhdr=(1, 3), udata=[[base + 5, base + 0x2000, 3, 4]]))
             th['ops'].append(worlds.op_imap(rng, rng.randbytes(16).hex(), base))
             d['late_image'] = True
+        # a thread born during the capture: not in the thread map, announced in-stream by another thread
+        if len(d['threads']) >= 2 and rng.chance(0.4):
+            born = d['threads'][-1]
+            d['writer']['tmap'] = [t for t in d['writer']['tmap'] if t[0] != born['tid']]
+            pid = 51000 + rng.randrange(50)
+            name = rng.ident(3, 9)
+            d['threads'][0]['ops'].insert(0, worlds.op_newthread(rng, born['tid'], pid, name))
+            d['born'] = [born['tid'], pid, name]
+        # a dump cut at both ends: orphan ENDs at the start, unfinished STARTs at the end, lost records
+        if rng.chance(0.4):
+            nrec = sum(len(x) for x in worlds.kernel.expand_threads(d['threads'], worlds.catalog()['ids']))
+            fl = []
+            for _f in range(rng.randint(1, 3)):
+                k = rng.pick(['wrap', 'drop', 'kill', 'tail'])
+                if k == 'wrap':
+                    fl.append({'k': 'wrap', 'n': rng.randint(1, max(1, nrec // 3))})
+                elif k == 'drop':
+                    fl.append({'k': 'drop', 'at': rng.randrange(max(1, nrec))})
+                elif k == 'kill':
+                    fl.append({'k': 'kill', 'th': rng.randrange(len(d['threads'])), 'after': rng.randint(1, 8)})
+                else:
+                    fl.append({'k': 'tail', 'n': rng.randint(1, max(1, nrec // 3))})
+            d['faults'] = fl
         _fix_samples(d)
         dumps.append(d)
     hist = []
@@ -227,6 +257,11 @@ def execute(scn):
                 bump('probe:tid_filter')
             if cur.get('proc') is not None:
                 bump('probe:process_filter_pid' if cur['proc'].isdigit() else 'probe:process_filter_name')
+                born = scn['dumps'][di].get('born')
+                if born and cur['proc'] in (born[2], str(born[1])) and (cls or sub):
+                    bump('probe:process_of_thread_announced_in_stream')
+            if scn['dumps'][di].get('faults'):
+                bump('probe:dump_cut_at_both_ends')
             if sum(1 for k in ('tid', 'proc') if cur.get(k) is not None) + (1 if cls or sub else 0) >= 2:
                 bump('probe:combined_filters')
             if (cls or sub) and 7 not in cls and any(_first(t).eventid >> 24 == 7 for t, _s, _p in ref):
